@@ -21,7 +21,8 @@ import Pog.Model.Conv
                                                  removes it again in `finally`, so at any call it holds exactly the ids of the
                                                  enclosing list / dataclass objects: passed down as `id :: visited`
   the registered unstructure hooks               threaded through (`unstructure_to_dict` registers the classes reachable from a
-                                                 dataclass instance; a dict is unstructured WITHOUT registering anything)
+                                                 dataclass instance; the values of a dict are serialised one by one, so an
+                                                 instance held by a dict registers its class like any other)
   RecursionError                                 `.error .fuel` for EVERY fuel (`C16.serializer_terminates`: never)
 
   `unstructure_to_dict(obj, visited)` hands the serializer's OWN set to cattrs: the set holds the ids of the enclosing
@@ -359,6 +360,19 @@ def mapSt {α β : Type} (f : List Str → α → Except UErr (β × List Str)) 
       | .error e => .error e
       | .ok (ys, reg2) => .ok (y :: ys, reg2)
 
+/-- The dict branch of `_serialize_with_tracking`: every value goes through `f` (the tracked recursion), left to right,
+    threading the hook registry; an entry whose value becomes `None` is dropped (keys are `str`: returned unchanged). -/
+def mapStKvs {α : Type} (f : List Str → α → Except UErr (PV × List Str)) :
+    List Str → List (Str × α) → Except UErr (List (Str × PV) × List Str)
+  | reg, [] => .ok ([], reg)
+  | reg, (k, x) :: rest =>
+    match f reg x with
+    | .error e => .error e
+    | .ok (p, reg1) =>
+      match mapStKvs f reg1 rest with
+      | .error e => .error e
+      | .ok (ps, reg2) => .ok (if p.isNull then ps else (k, p) :: ps, reg2)
+
 def b64Encode (v : Str) : Str := v     -- values are kept as their canonical base64 spelling (see `Codecs.exec`)
 
 /-- `DataclassSerializer._serialize_with_tracking(v, visited)`; returns the result and the hook registry after the
@@ -391,11 +405,11 @@ def serF (c : Codecs) : Nat → Heap → Decls → List Nat → List Str → HVa
           match PV.ensureWith (fun r i => serF c n heap decls (id :: visited) r (.ref i)) reg1 result with
           | .error e => .error e
           | .ok (p, reg2) => .ok (p.removeNone, reg2)
-      | some (.dict _) =>
-        -- "everything else": cattrs by runtime class (behind the guard), nothing registered, no `_ensure_all_dicts`
-        match hUnstr c n heap visited reg decls none v with
+      | some (.dict kvs) =>
+        -- the same tracked recursion as for a list, value by value (F48, repaired: a dict used to go to cattrs as a whole)
+        match mapStKvs (fun r x => serF c n heap decls (id :: visited) r x) reg kvs with
         | .error e => .error e
-        | .ok result => .ok (result.removeNone, reg)
+        | .ok (ps, reg1) => .ok (.obj ps, reg1)
     | _ =>
       match hUnstr c n heap visited reg decls none v with
       | .error e => .error e
